@@ -434,6 +434,17 @@ pub const TERMINATOR_DOCS: &[&str] = &[
     "<!DOCTYPE a [<!ENTITY e \"x>y\">]>",
     "<!DOCTYPE>",
     "<!DOCTYPE >",
+    // bytes that look like whitespace to `u8::is_ascii_whitespace` / `char::is_whitespace` but are not XML whitespace
+    "<!DOCTYPE \x0Ca>",
+    "<!DOCTYPE\x0Ca>",
+    "<!DOCTYPE \x0B a [<!ELEMENT a (b)>]>",
+    "<a>\x0C x \x0C</a>\x0C",
+    " \x0C<a/>\x0B ",
+    "</a\x0C>",
+    "<a\x0Cb='1'/>",
+    "<?x\x0Cy?>",
+    "<?xml\x0Cversion='1.0'?>",
+    "<a>\u{85}x\u{A0}</a>\u{2028}",
     "<!DOCTYP a>",
     "<a b='>'/>",
     "<a b=\">\"/>",
